@@ -600,15 +600,11 @@ def monitor_park_rule(run, f, rid):
         return
     for (x, t) in bl:
         d = describe_val(b, du, t["args"][-1])
-        ok = False
-        if isinstance(d, tuple) and d and d[0] == "call" and d[1].startswith("std::time::Duration::from_") and len(d[2]) == 1 and d[2][0][0] == "const":
-            try:
-                ns = int(d[2][0][1]) * {"from_secs": 10**9, "from_millis": 10**6, "from_micros": 10**3, "from_nanos": 1}[d[1].rsplit("::", 1)[1]]
-                ok = 0 < ns <= 10 * 10**6
-            except (ValueError, KeyError, TypeError):
-                ok = False
+        from rules.common import const_duration_ns
+        ns = const_duration_ns(b, du, t["args"][-1])
+        ok = ns is not None and 0 < ns <= 10 * 10**6
         if ok:
-            run.ok(rid, "monitor_thread_main/park", {"duration": d[1].rsplit("::", 1)[1] + "(" + str(d[2][0][1]) + ")"})
+            run.ok(rid, "monitor_thread_main/park", {"nanoseconds": ns})
         else:
             run.fail(rid, "monitor_thread_main/park", b.loc(t.get("line")), "the monitor thread parks for %s, which is not a constant of at most 10 ms: a coroutine whose first signal was ignored (system-call state, nested coroutine) is not signalled again in time, or ever" % (repr(d)[:160],))
 
